@@ -1148,9 +1148,11 @@ DLLIMPORT cfg_value_t *cfg_setopt(cfg_t *cfg, cfg_opt_t *opt, const char *value)
 				cfg_free(val->section);
 			}
 			val->section = sec;
-		}
-		if (!is_set(CFGF_DEFINIT, opt->flags))
+
+			/* a new section starts from its defaults; one that is
+			 * opened again keeps what it holds */
 			cfg_init_defaults(val->section);
+		}
 		break;
 
 	case CFGT_BOOL:
